@@ -611,7 +611,7 @@ fn gen_random(path: &str) {
         one(&mut out, &mut stats, &mut rng, run, fam, &a, &vec![0; n], true, None, None);
     }
     // size ladder: a handful of inputs at orders 20, 33 and 64
-    let reps = if big { 12 } else { 1 };
+    let reps = if big { 4 } else { 1 };
     for rep in 0..reps {
         for (si, &n) in [20usize, 33, 64].iter().enumerate() {
             for (fi, fam) in LADDER_SYM.iter().enumerate() {
